@@ -377,6 +377,133 @@ func firstWrites(f *core.FuncInfo, n int) []string {
 }
 
 // C03.sendall
+// keyJoin describes a loop that joins all elements of a collection into one text.
+type keyJoin struct {
+	fn     *core.FuncInfo
+	loop   *ast.RangeStmt
+	sep    string
+	early  string       // break / continue / return inside the loop
+	result types.Object // accumulator variable (string, strings.Builder / bytes.Buffer, or slice later joined)
+	ok     bool         // every iteration appends the ranged element
+}
+
+// findKeyJoin recognises, in fn, the loop ranging over `over` (a field selector or a parameter object) and the way
+// its elements are accumulated. Idioms: acc += k + sep / acc = acc + k + sep; b.WriteString(k) with
+// b.WriteString(sep) / WriteByte / WriteRune; parts = append(parts, k) with strings.Join(parts, sep) after the loop.
+func findKeyJoin(fn *core.FuncInfo, isOver func(e ast.Expr) bool) *keyJoin {
+	info := fn.Pkg.TypesInfo
+	var rs *ast.RangeStmt
+	ast.Inspect(fn.Decl.Body, func(n ast.Node) bool {
+		if x, ok := n.(*ast.RangeStmt); ok && isOver(x.X) {
+			rs = x
+		}
+		return true
+	})
+	if rs == nil {
+		return nil
+	}
+	kj := &keyJoin{fn: fn, loop: rs}
+	ast.Inspect(rs.Body, func(n ast.Node) bool {
+		switch x := n.(type) {
+		case *ast.BranchStmt:
+			kj.early = x.Tok.String()
+		case *ast.ReturnStmt:
+			kj.early = "return"
+		case *ast.FuncLit:
+			return false
+		}
+		return true
+	})
+	kObj := core.ObjOf(info, rs.Key)
+	if _, isMap := info.TypeOf(rs.X).Underlying().(*types.Map); !isMap && rs.Value != nil {
+		kObj = core.ObjOf(info, rs.Value)
+	}
+	if kObj == nil {
+		return kj
+	}
+	constStr := func(e ast.Expr) (string, bool) {
+		if v := core.ConstVal(info, e); v != nil {
+			switch v.Kind() {
+			case constant.String:
+				return constant.StringVal(v), true
+			case constant.Int:
+				if i, ok := constant.Int64Val(v); ok && i > 0 && i < 128 {
+					return string(rune(i)), true
+				}
+			}
+		}
+		return "", false
+	}
+	wroteKey := false
+	var sliceAcc types.Object
+	for _, st := range rs.Body.List { // top-level statements of the body only: unconditional in every iteration
+		switch x := st.(type) {
+		case *ast.AssignStmt:
+			if len(x.Lhs) != 1 || len(x.Rhs) != 1 {
+				continue
+			}
+			lhs := core.ObjOf(info, x.Lhs[0])
+			if lhs == nil || !mentions(info, x.Rhs[0], kObj) {
+				continue
+			}
+			if c, ok := ast.Unparen(x.Rhs[0]).(*ast.CallExpr); ok {
+				if id, ok := ast.Unparen(c.Fun).(*ast.Ident); ok && id.Name == "append" && len(c.Args) >= 2 && isObj(info, c.Args[0], lhs) {
+					sliceAcc, wroteKey = lhs, true
+					continue
+				}
+			}
+			if x.Tok == token.ADD_ASSIGN || mentions(info, x.Rhs[0], lhs) {
+				kj.result, wroteKey = lhs, true
+				ast.Inspect(x.Rhs[0], func(n ast.Node) bool {
+					if e, ok := n.(ast.Expr); ok {
+						if sv, ok := constStr(e); ok {
+							kj.sep += sv
+							return false
+						}
+					}
+					return true
+				})
+			}
+		case *ast.ExprStmt:
+			c, ok := ast.Unparen(x.X).(*ast.CallExpr)
+			if !ok || len(c.Args) != 1 {
+				continue
+			}
+			sel, ok := ast.Unparen(c.Fun).(*ast.SelectorExpr)
+			if !ok || !strings.HasPrefix(sel.Sel.Name, "Write") {
+				continue
+			}
+			b := core.ObjOf(info, sel.X)
+			if b == nil {
+				continue
+			}
+			if isObj(info, c.Args[0], kObj) {
+				kj.result, wroteKey = b, true
+			} else if sv, ok := constStr(c.Args[0]); ok && (kj.result == nil || kj.result == b) {
+				kj.sep += sv
+			}
+		}
+	}
+	if sliceAcc != nil {
+		// strings.Join(parts, sep) after the loop
+		ast.Inspect(fn.Decl.Body, func(n ast.Node) bool {
+			c, ok := n.(*ast.CallExpr)
+			if !ok || c.Pos() < rs.End() || len(c.Args) != 2 {
+				return true
+			}
+			if g := core.Callee(info, c); g != nil && g.Pkg() != nil && g.Pkg().Path() == "strings" && g.Name() == "Join" && isObj(info, c.Args[0], sliceAcc) {
+				if sv, ok := constStr(c.Args[1]); ok {
+					kj.sep = sv + "(join)"
+					kj.result = sliceAcc
+				}
+			}
+			return true
+		})
+	}
+	kj.ok = wroteKey && kj.result != nil
+	return kj
+}
+
 func c03SendAll(r *core.Run, fld *types.Var) {
 	w := r.W
 	var regFns []*core.FuncInfo
@@ -385,62 +512,107 @@ func c03SendAll(r *core.Run, fld *types.Var) {
 			continue
 		}
 		for _, cs := range w.Calls(f) {
-			if isBranchRegister(w, cs.Static) && rangesOver(f, fld) != nil {
+			if isBranchRegister(w, cs.Static) {
 				regFns = append(regFns, f)
 				break
 			}
 		}
 	}
-	if len(regFns) == 0 {
-		r.Anchor("C03.sendall", nil, "function in pkg/datasource/sql that ranges over TransactionContext.LockKeys and calls BranchRegister")
+	// the function that calls BranchRegister with the collected keys: it mentions the LockKeys field
+	var keep []*core.FuncInfo
+	for _, f := range dedupFns(regFns) {
+		uses := false
+		ast.Inspect(f.Decl.Body, func(n ast.Node) bool {
+			if sel, ok := n.(*ast.SelectorExpr); ok && f.Pkg.TypesInfo.Uses[sel.Sel] == fld {
+				uses = true
+			}
+			return !uses
+		})
+		if uses {
+			keep = append(keep, f)
+		}
+	}
+	if len(keep) == 0 {
+		r.Anchor("C03.sendall", nil, "function in pkg/datasource/sql that reads TransactionContext.LockKeys and calls BranchRegister")
 		return
 	}
-	for _, f := range dedupFns(regFns) {
+	for _, f := range keep {
 		r.Fn(f)
 		info := f.Pkg.TypesInfo
-		rs := rangesOver(f, fld)
 		key := core.ShortKey(f.Obj)
-		// no early exit from the loop
-		early := ""
-		ast.Inspect(rs.Body, func(n ast.Node) bool {
-			switch x := n.(type) {
-			case *ast.BranchStmt:
-				early = x.Tok.String()
-			case *ast.ReturnStmt:
-				early = "return"
-			case *ast.FuncLit:
-				return false
-			}
-			return true
-		})
-		r.Sites++
-		r.Check(early == "", "C03.sendall", key+" : loop visits every key", w.Pos(rs.Pos()), "the loop over LockKeys has no break/continue/return", "the loop over the collected lock keys contains '"+early+"': some keys may not be sent")
-		// accumulation: acc += k + ";" (or acc = acc + k + ";")
-		kObj := core.ObjOf(info, rs.Key)
-		var acc types.Object
-		sep := ""
-		for _, s := range rs.Body.List {
-			as, ok := s.(*ast.AssignStmt)
-			if !ok || len(as.Lhs) != 1 || len(as.Rhs) != 1 {
-				continue
-			}
-			if kObj != nil && mentions(info, as.Rhs[0], kObj) && (as.Tok == token.ADD_ASSIGN || mentions(info, as.Rhs[0], core.ObjOf(info, as.Lhs[0]))) {
-				acc = core.ObjOf(info, as.Lhs[0])
-				ast.Inspect(as.Rhs[0], func(n ast.Node) bool {
-					if e, ok := n.(ast.Expr); ok {
-						if v := core.ConstVal(info, e); v != nil && v.Kind() == constant.String {
-							sep += constant.StringVal(v)
-							return false
+		isFld := func(e ast.Expr) bool {
+			sel, ok := ast.Unparen(e).(*ast.SelectorExpr)
+			return ok && info.Uses[sel.Sel] == fld
+		}
+		// the join: in f itself, or in a helper of the package that f hands the LockKeys collection to
+		kj := findKeyJoin(f, isFld)
+		var viaHelper *types.Func
+		if kj == nil {
+			for _, cs := range w.Calls(f) {
+				h := w.Info(cs.Static)
+				if h == nil || h.Pkg != f.Pkg {
+					continue
+				}
+				for ai, a := range cs.Call.Args {
+					if !isFld(a) {
+						continue
+					}
+					ps := paramObjs(h)
+					if ai >= len(ps) {
+						continue
+					}
+					pobj := ps[ai]
+					if hj := findKeyJoin(h, func(e ast.Expr) bool { return isObj(h.Pkg.TypesInfo, e, pobj) }); hj != nil {
+						// the helper must return the joined text
+						returns := false
+						ast.Inspect(h.Decl.Body, func(n ast.Node) bool {
+							if rs, ok := n.(*ast.ReturnStmt); ok && len(rs.Results) == 1 && hj.result != nil && mentions(h.Pkg.TypesInfo, rs.Results[0], hj.result) {
+								returns = true
+							}
+							return true
+						})
+						if returns {
+							kj, viaHelper = hj, cs.Static
+							r.Fn(h)
 						}
 					}
-					return true
-				})
+				}
 			}
 		}
-		r.Check(acc != nil && kObj != nil, "C03.sendall", key+" : every key accumulated", w.Pos(rs.Pos()), "each key is appended to the accumulator", "the loop body does not append the ranged key to an accumulator unconditionally")
-		r.Check(sep == ";", "C03.format", key+" : keys joined with ';'", w.Pos(rs.Pos()), "keys joined with ';'", "keys are joined with '"+sep+"' instead of ';'")
-		// accumulator stored into the request's LockKeys before BranchRegister; guards only test the transaction mode
-		sp := &flow.Spec{W: w, Depth: 0,
+		if kj == nil {
+			r.Bad("C03.sendall", key+" : loop visits every key", w.Pos(f.Decl.Pos()), "no loop over the collected lock keys found in the register step or in a helper it hands them to")
+			continue
+		}
+		r.Sites++
+		r.Check(kj.early == "", "C03.sendall", key+" : loop visits every key", w.Pos(kj.loop.Pos()), "the loop over LockKeys has no break/continue/return", "the loop over the collected lock keys contains '"+kj.early+"': some keys may not be sent")
+		r.Check(kj.ok, "C03.sendall", key+" : every key accumulated", w.Pos(kj.loop.Pos()), "each key is appended to the accumulator", "the loop body does not append the ranged key to an accumulator unconditionally")
+		sep := strings.TrimSuffix(kj.sep, "(join)")
+		okSep := kj.sep == ";" // every key terminated by ';' (a plain strings.Join leaves the last one unterminated, which the coordinator accepts as well)
+		if strings.HasSuffix(kj.sep, "(join)") {
+			okSep = sep == ";"
+		}
+		r.Check(okSep, "C03.format", key+" : keys joined with ';'", w.Pos(kj.loop.Pos()), "keys joined with ';'", "keys are joined with '"+sep+"' instead of ';'")
+		// the joined text is stored into the request's LockKeys before BranchRegister; guards only test the transaction mode
+		isJoined := func(pkg *packages.Package, e ast.Expr) bool {
+			if viaHelper != nil {
+				if c, ok := ast.Unparen(e).(*ast.CallExpr); ok && core.Callee(pkg.TypesInfo, c) == viaHelper {
+					return true
+				}
+				// through a local that holds the helper's result
+				if id, ok := ast.Unparen(e).(*ast.Ident); ok {
+					if v, ok := pkg.TypesInfo.Uses[id].(*types.Var); ok {
+						for _, d := range localDefs(f, v) {
+							if c, ok := ast.Unparen(d.rhs).(*ast.CallExpr); ok && core.Callee(pkg.TypesInfo, c) == viaHelper {
+								return true
+							}
+						}
+					}
+				}
+				return false
+			}
+			return kj.result != nil && mentions(pkg.TypesInfo, e, kj.result)
+		}
+		sp := &flow.Spec{W: w, Depth: 0, Inline: -1,
 			Classify: func(pkg *packages.Package, call *ast.CallExpr, callee *types.Func) []flow.Tag {
 				if isBranchRegister(w, callee) {
 					return []flow.Tag{"register"}
@@ -449,7 +621,7 @@ func c03SendAll(r *core.Run, fld *types.Var) {
 			},
 			AssignTags: func(pkg *packages.Package, as *ast.AssignStmt) []flow.Tag {
 				for i, l := range as.Lhs {
-					if sel, ok := ast.Unparen(l).(*ast.SelectorExpr); ok && sel.Sel.Name == "LockKeys" && i < len(as.Rhs) && acc != nil && isObj(pkg.TypesInfo, as.Rhs[i], acc) {
+					if sel, ok := ast.Unparen(l).(*ast.SelectorExpr); ok && sel.Sel.Name == "LockKeys" && i < len(as.Rhs) && isJoined(pkg, as.Rhs[i]) {
 						if v, ok := pkg.TypesInfo.Uses[sel.Sel].(*types.Var); ok && v.IsField() && v != fld {
 							return []flow.Tag{"keysset"}
 						}
@@ -524,13 +696,30 @@ func c03SFU(r *core.Run, live []*types.Named) {
 	}
 	ec := methodInfo(w, sfu, "ExecContext")
 	r.Fn(ec)
-	// inner function: the one calling LockQuery directly
+	// inner function: the one that runs the business statement (calls its function-typed parameter) and from which
+	// LockQuery is reached — directly or through helpers of the package, which are analysed in its context
 	var inner *core.FuncInfo
-	for _, f := range reachFrom(w, []*core.FuncInfo{ec}, pExecAT) {
-		for _, cs := range w.Calls(f) {
-			if isLockQuery(w, cs.Static) {
-				inner = f
+	lqReach := newReach(w, 3, func(f *types.Func) bool { return isLockQuery(w, f) })
+	for _, f := range append(reachFrom(w, []*core.FuncInfo{ec}, pExecAT), ec) {
+		if f.Pkg.PkgPath != pExecAT || !lqReach.Hits(f.Obj) {
+			continue
+		}
+		callsParam := false
+		finfo := f.Pkg.TypesInfo
+		ast.Inspect(f.Decl.Body, func(n ast.Node) bool {
+			if c, ok := n.(*ast.CallExpr); ok {
+				if id, ok := ast.Unparen(c.Fun).(*ast.Ident); ok {
+					if v, ok := finfo.Uses[id].(*types.Var); ok && isParam(f, v) {
+						if _, isSig := v.Type().Underlying().(*types.Signature); isSig {
+							callsParam = true
+						}
+					}
+				}
 			}
+			return true
+		})
+		if callsParam && (f != ec || inner == nil) {
+			inner = f
 		}
 	}
 	if inner == nil {
